@@ -13,7 +13,18 @@ import numpy as np
 
 from vlib.common import Check, assert_repo, rng_for
 
-VARIANTS = ["vectorised", "novec_float", "novec_0d", "novec_1elem", "vec_disallowed"]
+VARIANTS = ["vectorised", "novec_float", "novec_0d", "novec_1elem", "vec_disallowed", "mixed_unit_single", "approx_vectorised"]
+
+
+def is_vec(variant, fn):
+    """Is the user function behind interface fn usable on whole batches (so that nessai may pass batches to it)?"""
+    if variant == "vectorised":
+        return True
+    if variant == "mixed_unit_single":      # likelihood and prior vectorised, the user's unit-hypercube prior written for one point at a time
+        return fn != "prior_unit_hypercube"
+    if variant == "approx_vectorised":      # the likelihood accepts batches but its batch path is only approximately equal to its single-point path
+        return not fn.startswith("likelihood")
+    return False
 FUNCS = ["likelihood", "likelihood_unit", "prior", "prior_from_unit", "prior_unit_hypercube"]
 
 
@@ -46,8 +57,15 @@ def build_model(variant, log_path=None, delay_us=0):
             self.prior_call_ids = []
 
         def _ll(self, x):
-            if variant == "vectorised" or variant == "vec_disallowed":
+            if variant in ("vectorised", "vec_disallowed", "mixed_unit_single"):
                 return f_exact(x["uid"] * 1e-3, x["y"])
+            if variant == "approx_vectorised":
+                if np.size(x) > 1:
+                    # single-precision batch path (as an accelerator would give): equal to the double-precision single-point path only to ~1e-7, so nessai's
+                    # vectorisation probe must classify the function as not vectorised and evaluate point by point
+                    a, b = (x["uid"] * 1e-3).astype(np.float32), x["y"].astype(np.float32)
+                    return np.where(b > 3.0, -np.inf, (-0.5 * (a * a + b * b)).astype(np.float64) * (1.0 + 3e-7))
+                return f_exact(one(x["uid"]) * 1e-3, one(x["y"]))
             v = f_exact(one(x["uid"]) * 1e-3, one(x["y"]))  # raises on real batches
             if variant == "novec_float":
                 return v
@@ -57,13 +75,17 @@ def build_model(variant, log_path=None, delay_us=0):
 
         def log_prior(self, x):
             self.prior_call_ids.append(np.atleast_1d(x["uid"]).astype(float).tolist())
-            if variant in ("vectorised", "vec_disallowed"):
+            if variant in ("vectorised", "vec_disallowed", "mixed_unit_single", "approx_vectorised"):
                 return np.log(self.in_bounds(x), dtype=float) - 0.125 * x["y"] * x["y"]
             with np.errstate(divide="ignore"):
                 return float(np.log(one(self.in_bounds(x)))) - 0.125 * one(x["y"]) * one(x["y"])
 
         def log_prior_unit_hypercube(self, x):
             self.prior_call_ids.append(np.atleast_1d(x["uid"]).astype(float).tolist())
+            if variant == "mixed_unit_single":
+                u, y = one(x["uid"]), one(x["y"])    # raises on real batches
+                with np.errstate(divide="ignore"):
+                    return float(np.log(float(0.0 <= u < 1.0 and 0.0 <= y < 1.0)))
             return Model.log_prior_unit_hypercube(self, x)
 
     m = M()
@@ -160,10 +182,10 @@ def grid_cell(model, pool_kind, N, chunksize, fn, uid0, rng):
         probs.append(("exactly-once", len(seen), N, sorted(set(ids) - set(seen))[:3], [i for i in set(seen) if seen.count(i) > 1][:3]))
     if seen != ids and sorted(seen) == sorted(ids) and pool_kind.startswith(("none", "fake")):
         probs.append(("in-process call order differs from batch order",))
-    vec = variant == "vectorised" and not (pool_kind == "fake_unknown")
+    vec = is_vec(variant, fn) and not (pool_kind == "fake_unknown")
     if fn.startswith("likelihood") and chunksize and vec and any(len(c) > chunksize for c in calls):
         probs.append(("chunksize exceeded", chunksize, max(len(c) for c in calls)))
-    if variant != "vectorised" and fn != "prior_unit_hypercube" and any(len(c) != 1 for c in calls):
+    if not is_vec(variant, fn) and (fn != "prior_unit_hypercube" or variant == "mixed_unit_single") and any(len(c) != 1 for c in calls):
         probs.append(("non-vectorised function called with a batch", [len(c) for c in calls][:5]))
     return probs
 
@@ -193,7 +215,7 @@ def grid_worker(case):
             model.parallelise_prior = True
     # force the vectorisation probes now, so that they are not mistaken for batch calls
     _ = model.vectorised_likelihood, model.vectorised_prior, model.vectorised_prior_unit_hypercube
-    expected_vec = variant == "vectorised" and pool_kind != "fake_unknown"
+    expected_vec = is_vec(variant, "likelihood") and pool_kind != "fake_unknown"
     problems = []
     if bool(model.allow_vectorised and model.vectorised_likelihood) != expected_vec:
         problems.append(dict(cell="setup", problems=[("vectorisation detection", bool(model.vectorised_likelihood), expected_vec)]))
